@@ -101,3 +101,14 @@ Theorem C07_refuted_ws :
   ws_ok wg = false.
 Proof. exact ws_not_forced_atomic. Qed.
 Print Assumptions C07_refuted_ws.
+
+(* the never-failing entry points of the MIN = 0 repetitions (`NeverFailedTypedNode::parse_with` / `check_with`; Model/SkipN.v, any
+   skip count, any skip node) place their skips exactly where the fallible entry points do -- they compute the same offset and the
+   same value, whose unit chain (C19_skipn_rep_match_iff) has the first element WITHOUT skips and every later one after exactly k skips *)
+From PT Require Import Model.SkipN Proofs.SkipNProofs Proofs.SkipNEntry.
+Theorem C07_never_failing_entry_points : forall f s n pos, skip_shape n = true ->
+  sparse_nf f s n pos = sparse f s n pos /\ scheck_nf f s n pos = scheck f s n pos /\
+  sparse_nf f s n pos <> SFailed /\ scheck_nf f s n pos <> SFailed /\
+  scheck_nf f s n pos = pos_of (sparse_nf f s n pos).
+Proof. exact nf_entry_points. Qed.
+Print Assumptions C07_never_failing_entry_points.
